@@ -2234,5 +2234,156 @@ impl Decoder {
 //@end
 }
 
+
+// ---------------------------------------------------------------------------------------------------------------------------------
+// Outbound packets whose encoders use no getter: the steps they append denote exactly the bytes of the standard (C02), whatever
+// MqttPacket `pk` is later handed to Encoder::encode.
+//@struct gneiss-mqtt/src/alias.rs OutboundAliasResolution
+//@struct gneiss-mqtt/src/encode.rs EncodingContext
+//@macro gneiss-mqtt/src/encode.rs encode_integral_expression
+
+pub proof fn lemma_flat_push(s: Seq<EncodingStep>, x: EncodingStep, p: MqttPacket)
+    ensures flat(s.push(x), p) == flat(s, p) + step_bytes(x, p),
+    decreases s.len()
+{
+    if s.len() == 0 {
+        assert(s.push(x).subrange(1, 1) =~= Seq::<EncodingStep>::empty());
+        assert(flat(s.push(x), p) =~= step_bytes(x, p) + flat(Seq::<EncodingStep>::empty(), p));
+        assert(flat(s, p) + step_bytes(x, p) =~= step_bytes(x, p));
+    } else {
+        let t = s.push(x);
+        assert(t.subrange(1, t.len() as int) =~= s.subrange(1, s.len() as int).push(x));
+        lemma_flat_push(s.subrange(1, s.len() as int), x, p);
+        assert(flat(t, p) =~= step_bytes(s[0], p) + (flat(s.subrange(1, s.len() as int), p) + step_bytes(x, p)));
+        assert(flat(s, p) + step_bytes(x, p) =~= step_bytes(s[0], p) + (flat(s.subrange(1, s.len() as int), p) + step_bytes(x, p)));
+    }
+}
+
+//@fn gneiss-mqtt/src/mqtt/pingreq.rs write_pingreq_encoding_steps props=C02,C14
+    ensures
+        r is Ok,
+        forall|pk: MqttPacket| steps_wf(old(steps)@, pk) ==> steps_wf(final(steps)@, pk),
+        // OASIS 3.12: PINGREQ is the two bytes C0 00 in both protocol versions
+        forall|pk: MqttPacket| #[trigger] flat(final(steps)@, pk) == flat(old(steps)@, pk) + seq![0xC0u8, 0u8],
+//@@at bodystart
+    let ghost s0 = steps@;
+//@@at before "Ok(())"
+    proof {
+        assert(PACKET_TYPE_PINGREQ << 4 == 0xC0u8) by (compute);
+        assert forall|pk: MqttPacket| #[trigger] flat(steps@, pk) == flat(s0, pk) + seq![0xC0u8, 0u8] by {
+            let x0 = EncodingStep::Uint8(0xC0u8); let x1 = EncodingStep::Uint8(0u8);
+            lemma_flat_push(s0, x0, pk); lemma_flat_push(s0.push(x0), x1, pk);
+            assert(step_bytes(x0, pk) =~= seq![0xC0u8]); assert(step_bytes(x1, pk) =~= seq![0u8]);
+            assert(steps@ =~= s0.push(x0).push(x1));
+            assert(flat(steps@, pk) =~= flat(s0, pk) + seq![0xC0u8, 0u8]);
+        }
+    }
+//@end
+
+//@fn gneiss-mqtt/src/mqtt/disconnect.rs write_disconnect_encoding_steps311 props=C02,C07
+    ensures
+        r is Ok,
+        forall|pk: MqttPacket| steps_wf(old(steps)@, pk) ==> steps_wf(final(steps)@, pk),
+        // OASIS 3.1.1 section 3.14: DISCONNECT is the two bytes E0 00
+        forall|pk: MqttPacket| #[trigger] flat(final(steps)@, pk) == flat(old(steps)@, pk) + seq![0xE0u8, 0u8],
+//@@at bodystart
+    let ghost s0 = steps@;
+//@@at before "Ok(())"
+    proof {
+        assert(PACKET_TYPE_DISCONNECT << 4 == 0xE0u8) by (compute);
+        assert forall|pk: MqttPacket| #[trigger] flat(steps@, pk) == flat(s0, pk) + seq![0xE0u8, 0u8] by {
+            let x0 = EncodingStep::Uint8(0xE0u8); let x1 = EncodingStep::Uint8(0u8);
+            lemma_flat_push(s0, x0, pk); lemma_flat_push(s0.push(x0), x1, pk);
+            assert(step_bytes(x0, pk) =~= seq![0xE0u8]); assert(step_bytes(x1, pk) =~= seq![0u8]);
+            assert(steps@ =~= s0.push(x0).push(x1));
+            assert(flat(steps@, pk) =~= flat(s0, pk) + seq![0xE0u8, 0u8]);
+        }
+    }
+//@end
+
+//@fn gneiss-mqtt/src/mqtt/puback.rs write_puback_encoding_steps311 props=C02 via=gneiss-mqtt/src/encode.rs:define_ack_packet_encoding_impl311
+    ensures
+        r is Ok,
+        forall|pk: MqttPacket| steps_wf(old(steps)@, pk) ==> steps_wf(final(steps)@, pk),
+        // OASIS 3.1.1 section 3.4: fixed header 0x40, Remaining Length 2, Packet Identifier MSB LSB
+        forall|pk: MqttPacket| #[trigger] flat(final(steps)@, pk) == flat(old(steps)@, pk) + (seq![0x40u8, 2u8] + be16_bytes(packet.packet_id)),
+//@@at bodystart
+    let ghost s0 = steps@;
+//@@at before "Ok(())"
+    proof {
+        assert(PUBACK_FIRST_BYTE == 0x40u8) by (compute);
+        assert forall|pk: MqttPacket| #[trigger] flat(steps@, pk) == flat(s0, pk) + (seq![0x40u8, 2u8] + be16_bytes(packet.packet_id)) by {
+            let x0 = EncodingStep::Uint8(0x40u8); let x1 = EncodingStep::Uint8(2u8); let x2 = EncodingStep::Uint16(packet.packet_id);
+            lemma_flat_push(s0, x0, pk); lemma_flat_push(s0.push(x0), x1, pk); lemma_flat_push(s0.push(x0).push(x1), x2, pk);
+            assert(step_bytes(x0, pk) =~= seq![0x40u8]); assert(step_bytes(x1, pk) =~= seq![2u8]); assert(step_bytes(x2, pk) =~= be16_bytes(packet.packet_id));
+            assert(steps@ =~= s0.push(x0).push(x1).push(x2));
+            assert(flat(steps@, pk) =~= flat(s0, pk) + (seq![0x40u8, 2u8] + be16_bytes(packet.packet_id)));
+        }
+    }
+//@end
+
+//@fn gneiss-mqtt/src/mqtt/pubrec.rs write_pubrec_encoding_steps311 props=C02 via=gneiss-mqtt/src/encode.rs:define_ack_packet_encoding_impl311
+    ensures
+        r is Ok,
+        forall|pk: MqttPacket| steps_wf(old(steps)@, pk) ==> steps_wf(final(steps)@, pk),
+        // OASIS 3.1.1 section 3.5: fixed header 0x50, Remaining Length 2, Packet Identifier MSB LSB
+        forall|pk: MqttPacket| #[trigger] flat(final(steps)@, pk) == flat(old(steps)@, pk) + (seq![0x50u8, 2u8] + be16_bytes(packet.packet_id)),
+//@@at bodystart
+    let ghost s0 = steps@;
+//@@at before "Ok(())"
+    proof {
+        assert(PUBREC_FIRST_BYTE == 0x50u8) by (compute);
+        assert forall|pk: MqttPacket| #[trigger] flat(steps@, pk) == flat(s0, pk) + (seq![0x50u8, 2u8] + be16_bytes(packet.packet_id)) by {
+            let x0 = EncodingStep::Uint8(0x50u8); let x1 = EncodingStep::Uint8(2u8); let x2 = EncodingStep::Uint16(packet.packet_id);
+            lemma_flat_push(s0, x0, pk); lemma_flat_push(s0.push(x0), x1, pk); lemma_flat_push(s0.push(x0).push(x1), x2, pk);
+            assert(step_bytes(x0, pk) =~= seq![0x50u8]); assert(step_bytes(x1, pk) =~= seq![2u8]); assert(step_bytes(x2, pk) =~= be16_bytes(packet.packet_id));
+            assert(steps@ =~= s0.push(x0).push(x1).push(x2));
+            assert(flat(steps@, pk) =~= flat(s0, pk) + (seq![0x50u8, 2u8] + be16_bytes(packet.packet_id)));
+        }
+    }
+//@end
+
+//@fn gneiss-mqtt/src/mqtt/pubrel.rs write_pubrel_encoding_steps311 props=C02 via=gneiss-mqtt/src/encode.rs:define_ack_packet_encoding_impl311
+    ensures
+        r is Ok,
+        forall|pk: MqttPacket| steps_wf(old(steps)@, pk) ==> steps_wf(final(steps)@, pk),
+        // OASIS 3.1.1 section 3.6: fixed header 0x62, Remaining Length 2, Packet Identifier MSB LSB
+        forall|pk: MqttPacket| #[trigger] flat(final(steps)@, pk) == flat(old(steps)@, pk) + (seq![0x62u8, 2u8] + be16_bytes(packet.packet_id)),
+//@@at bodystart
+    let ghost s0 = steps@;
+//@@at before "Ok(())"
+    proof {
+        assert(PUBREL_FIRST_BYTE == 0x62u8) by (compute);
+        assert forall|pk: MqttPacket| #[trigger] flat(steps@, pk) == flat(s0, pk) + (seq![0x62u8, 2u8] + be16_bytes(packet.packet_id)) by {
+            let x0 = EncodingStep::Uint8(0x62u8); let x1 = EncodingStep::Uint8(2u8); let x2 = EncodingStep::Uint16(packet.packet_id);
+            lemma_flat_push(s0, x0, pk); lemma_flat_push(s0.push(x0), x1, pk); lemma_flat_push(s0.push(x0).push(x1), x2, pk);
+            assert(step_bytes(x0, pk) =~= seq![0x62u8]); assert(step_bytes(x1, pk) =~= seq![2u8]); assert(step_bytes(x2, pk) =~= be16_bytes(packet.packet_id));
+            assert(steps@ =~= s0.push(x0).push(x1).push(x2));
+            assert(flat(steps@, pk) =~= flat(s0, pk) + (seq![0x62u8, 2u8] + be16_bytes(packet.packet_id)));
+        }
+    }
+//@end
+
+//@fn gneiss-mqtt/src/mqtt/pubcomp.rs write_pubcomp_encoding_steps311 props=C02 via=gneiss-mqtt/src/encode.rs:define_ack_packet_encoding_impl311
+    ensures
+        r is Ok,
+        forall|pk: MqttPacket| steps_wf(old(steps)@, pk) ==> steps_wf(final(steps)@, pk),
+        // OASIS 3.1.1 section 3.7: fixed header 0x70, Remaining Length 2, Packet Identifier MSB LSB
+        forall|pk: MqttPacket| #[trigger] flat(final(steps)@, pk) == flat(old(steps)@, pk) + (seq![0x70u8, 2u8] + be16_bytes(packet.packet_id)),
+//@@at bodystart
+    let ghost s0 = steps@;
+//@@at before "Ok(())"
+    proof {
+        assert(PUBCOMP_FIRST_BYTE == 0x70u8) by (compute);
+        assert forall|pk: MqttPacket| #[trigger] flat(steps@, pk) == flat(s0, pk) + (seq![0x70u8, 2u8] + be16_bytes(packet.packet_id)) by {
+            let x0 = EncodingStep::Uint8(0x70u8); let x1 = EncodingStep::Uint8(2u8); let x2 = EncodingStep::Uint16(packet.packet_id);
+            lemma_flat_push(s0, x0, pk); lemma_flat_push(s0.push(x0), x1, pk); lemma_flat_push(s0.push(x0).push(x1), x2, pk);
+            assert(step_bytes(x0, pk) =~= seq![0x70u8]); assert(step_bytes(x1, pk) =~= seq![2u8]); assert(step_bytes(x2, pk) =~= be16_bytes(packet.packet_id));
+            assert(steps@ =~= s0.push(x0).push(x1).push(x2));
+            assert(flat(steps@, pk) =~= flat(s0, pk) + (seq![0x70u8, 2u8] + be16_bytes(packet.packet_id)));
+        }
+    }
+//@end
+
 } // verus!
 fn main() {}
